@@ -1,23 +1,11 @@
 package sim
 
 import (
-	"reflect"
 	"strings"
-	"sync/atomic"
 	"testing"
-	"unsafe"
 
 	"github.com/zishang520/engine.io/v2/simrt"
-	"github.com/zishang520/engine.io/v2/utils"
 )
-
-// resetIDCounter zeroes the process-global sequence number that
-// utils.Base64Id mixes into every session id, so that repeated runs inside
-// one process produce the same ids (and hence the same event hash).
-func resetIDCounter() {
-	f := reflect.ValueOf(utils.Base64Id()).Elem().FieldByName("sequenceNumber")
-	(*atomic.Uint64)(unsafe.Pointer(f.UnsafeAddr())).Store(0)
-}
 
 func wtSmokeScenario(pol simrt.PolicySpec) *Scenario {
 	return &Scenario{Family: "session", Seed: 1, HorizonMs: 1500,
@@ -210,7 +198,7 @@ func TestWTFaults(t *testing.T) {
 							t.Logf("VIOLATION %s %s: %s", v.Prop, v.Sig, v.Msg)
 						}
 					}
-					t.Logf("outcome=%s steps=%d yields=%d events=%d alive=%v leftover=%v faults=%v", res.Outcome, res.Steps, res.Yields, res.NEvents, res.Alive, res.Leftover, res.Faults)
+					t.Logf("outcome=%s steps=%d yields=%d events=%d alive=%v leftover=%v faults=%v trace=%x events=%x", res.Outcome, res.Steps, res.Yields, res.NEvents, res.Alive, res.Leftover, res.Faults, res.TraceHash, res.EventHash)
 					if len(res.Alive) != 0 || res.Leftover || len(res.Fail) != 0 || res.Outcome != "stop" {
 						t.Errorf("alive=%v leftover=%v fail=%+v outcome=%s", res.Alive, res.Leftover, res.Fail, res.Outcome)
 					}
